@@ -142,6 +142,67 @@ fn finish_sched(rep: &mut Report) {
     rep.assume("reduction R1 (tasks released between two polls in ascending id order) validated against the unreduced exploration on the smallest input");
 }
 
+
+/// Child side of the "earlier calls in the same process" leg: archives for a list of option sets, written one after
+/// the other by the library writer in one process; prints [(len, fnv)] as JSON.
+pub fn compress_seq_main(arg: &str) {
+    let specs: Vec<Value> = serde_json::from_str(arg).expect("specs");
+    let rt = tokio::runtime::Builder::new_multi_thread().worker_threads(2).enable_all().build().unwrap();
+    let mut out = vec![];
+    for v in &specs {
+        let cfg = Cfg::from_json(&v["cfg"]);
+        let comp = comp_from_str(v["comp"].as_str().unwrap());
+        let src = unhex(v["source"].as_str().unwrap());
+        match rt.block_on(lib_compress_fragmented(&cfg, &comp, v["hash_len"].as_u64().unwrap() as usize, v["buffers"].as_u64().unwrap() as usize, &src, 0)) {
+            Ok(b) => out.push(json!({"len": b.len(), "fnv": format!("{:016x}", fnv(&b))})),
+            Err(e) => out.push(json!({"error": e})),
+        }
+    }
+    println!("{}", Value::Array(out));
+}
+
+/// An archive must not depend on what the process compressed BEFORE it (a cache of encoder parameters, a table or
+/// buffer kept between calls): for every ordered pair (O', O) of a small set of option tuples a fresh process writes
+/// archive(O') then archive(O); the second must equal archive(O) written alone in a fresh process.
+fn earlier_calls_leg(rep: &mut Report) {
+    let exe = std::env::current_exe().unwrap();
+    let text: Vec<u8> = (0..6000u32).map(|i| b"the quick brown fox jumps over the lazy dog, again and again; "[(i as usize * 7 + (i as usize / 61) * 3) % 61]).collect();
+    let f64c = Cfg::fixed(1024);
+    let roll = Cfg::new(Algo::Roll, 16, 64, 1024, 7);
+    let mut opts: Vec<Value> = vec![];
+    for comp in [Comp::None, Comp::Brotli(1), Comp::Brotli(9), Comp::Zstd(1), Comp::Zstd(19), Comp::Lzma(1), Comp::Lzma(9)] {
+        opts.push(compress_spec("lib-compress", &f64c, &comp, 64, 2, &text));
+    }
+    opts.push(compress_spec("lib-compress", &roll, &Comp::Brotli(5), 8, 2, &text));
+    opts.push(compress_spec("lib-compress", &Cfg::new(Algo::Buz, 16, 64, 1024, 7), &Comp::Brotli(5), 64, 1, &text));
+    opts.push(compress_spec("lib-compress", &Cfg::fixed(512), &Comp::Brotli(9), 4, 8, &text));
+    let run = |list: &[&Value]| -> Result<Vec<Value>, String> {
+        let arg = Value::Array(list.iter().map(|v| (*v).clone()).collect()).to_string();
+        let o = std::process::Command::new(&exe).args(["lib-compress-seq", &arg]).output().map_err(|e| e.to_string())?;
+        if !o.status.success() {
+            return Err(format!("child failed: {}", String::from_utf8_lossy(&o.stderr)));
+        }
+        let line = String::from_utf8_lossy(&o.stdout).lines().last().unwrap_or("").to_string();
+        serde_json::from_str::<Vec<Value>>(&line).map_err(|e| format!("child output: {e}"))
+    };
+    let alone: Vec<Value> = opts.iter().map(|o| run(&[o]).unwrap_or_else(|e| machinery(e)).remove(0)).collect();
+    let n = opts.len();
+    let jobs: Vec<(usize, usize)> = (0..n).flat_map(|i| (0..n).filter(move |j| *j != i).map(move |j| (i, j))).collect();
+    let (opts_ref, alone_ref, jobs_ref, run_ref) = (&opts, &alone, &jobs, &run);
+    let a = par_shards(jobs.len(), threads(), |k| {
+        let mut agg = Agg::default();
+        let (i, j) = jobs_ref[k];
+        let r = run_ref(&[&opts_ref[i], &opts_ref[j]]).unwrap_or_else(|e| machinery(e));
+        agg.add("earlier_call_pairs", 1);
+        if r[1] != alone_ref[j] {
+            agg.viol("archive-depends-on-earlier-calls-in-the-process", || json!({"writer": "library", "first": {"cfg": opts_ref[i]["cfg"], "comp": opts_ref[i]["comp"], "hash_len": opts_ref[i]["hash_len"]},
+                "second": {"cfg": opts_ref[j]["cfg"], "comp": opts_ref[j]["comp"], "hash_len": opts_ref[j]["hash_len"]}, "second_archive": r[1], "second_archive_written_alone": alone_ref[j]}));
+        }
+        agg
+    });
+    rep.agg.merge(a);
+}
+
 // ------------------------------------------------------------------ C12
 
 pub fn c12(rep: &mut Report) {
@@ -188,6 +249,7 @@ pub fn c12(rep: &mut Report) {
         }
     }
     rep.agg.add("delivery_sweep_runs", sweep);
+    earlier_calls_leg(rep);
     for (g, outs) in &groups {
         if outs.len() > 1 {
             let gv: Value = serde_json::from_str(g).unwrap();
@@ -197,7 +259,7 @@ pub fn c12(rep: &mut Report) {
     rep.set("groups", json!(groups.len()));
     rep.set("evaluations", json!(rep.agg.get("schedules") + sweep));
     rep.set("distinct_nontrivial", json!(rep.agg.distinct_count("schedule_outcomes") + rep.agg.distinct_count("sweep_archives")));
-    rep.set("rule", json!("schedule legs: deviation-bounded DFS over blocking-pool completion orders of the real compress_cmd / create_archive (each schedule = one execution of the real code, archive bytes observed after runtime shutdown); delivery sweep: buffered-chunks in {1,2,3,8,64} x input read sizes {whole,1,3,7} (the output accepting whole buffers, 5 or 1 bytes per write call, committing each write only with the next one or a flush) on a real multi-thread runtime; oracle: exactly one distinct archive per (writer, source, options); non-trivial = distinct (leg, archive) outcomes"));
+    rep.set("rule", json!("schedule legs: deviation-bounded DFS over blocking-pool completion orders of the real compress_cmd / create_archive (each schedule = one execution of the real code, archive bytes observed after runtime shutdown); delivery sweep: buffered-chunks in {1,2,3,8,64} x input read sizes {whole,1,3,7} (the output accepting whole buffers, 5 or 1 bytes per write call, committing each write only with the next one or a flush) on a real multi-thread runtime; oracle: exactly one distinct archive per (writer, source, options); earlier calls: for every ordered pair of 10 option tuples (7 compressions x levels, 3 chunker / hash-length variants) a fresh process writes both archives one after the other and the second must equal the one a fresh process writes alone; non-trivial = distinct (leg, archive) outcomes"));
     finish_sched(rep);
 }
 
